@@ -36,6 +36,9 @@ type reqSpec struct {
 	// ("drain": then reads the rest) or instead of ("noread": never reads
 	// another byte) reading the multi-megabyte body. "" = ordinary exchange.
 	Early string
+	// HangUp: the origin reads the request and closes the connection without
+	// answering (on every connection that carries the request).
+	HangUp bool
 }
 
 type resSpec struct {
@@ -54,7 +57,8 @@ type resSpec struct {
 // closes reports whether the origin announces that it closes after this response.
 func (s *resSpec) closes() bool { return s.Close || s.Proto == "HTTP/1.0" || s.Framing == "eof" }
 
-func (q *reqSpec) asksClose() bool { return q.Close || q.Proto == "HTTP/1.0" }
+// asksClose: an explicit Connection: close, or HTTP/1.0 without Connection: keep-alive.
+func (q *reqSpec) asksClose() bool { return q.Close || (q.Proto == "HTTP/1.0" && !q.KeepAlive) }
 
 type plan struct {
 	Pipelined bool
@@ -401,6 +405,9 @@ func generate(rng *rand.Rand, c connCase, thorough bool) *plan {
 				q.KeepAlive = true
 			}
 		}
+		if q.Proto == "HTTP/1.0" && rng.Intn(2) == 0 {
+			q.KeepAlive = true // an HTTP/1.0 client asking for a persistent connection
+		}
 		// early answer: a body far larger than every buffer between client and
 		// origin (pipes 64 KiB, bufio 4 KiB), nobody asks to close
 		early := !c.TCP && c.Big && bigLeft > 0 && rng.Intn(14) == 0
@@ -482,6 +489,16 @@ func generate(rng *rand.Rand, c connCase, thorough bool) *plan {
 		}
 		if rng.Intn(20) == 0 || (s.Framing == "eof" && rng.Intn(2) == 0) {
 			s.Close = true
+		}
+		if !early && rng.Intn(30) == 0 {
+			// the origin hangs up instead of answering; what the client gets for
+			// it is C03's subject, here only "not sent twice" and "the connection
+			// goes on" are judged
+			q.HangUp = true
+			s.Proto, s.Close = "HTTP/1.1", false
+			if s.Framing == "eof" {
+				s.Framing = "cl"
+			}
 		}
 		if early {
 			// a short, self-delimited, non-closing answer
